@@ -101,6 +101,7 @@ inductive Tok where
   | sgr (params : List (List Nat))
   | showCursor (on : Bool)         -- CSI ? 25 h/l
   | cursorShape (n : Nat)          -- DECSCUSR
+  | ris                            -- ESC c: reset to the power-on state (at the current size)
   | osc8 (params url : List Nat)   -- OSC 8 ; params ; url ST: the hyperlink of the glyphs printed from now on ("" closes it)
   deriving DecidableEq, Repr, Inhabited
 
@@ -308,6 +309,7 @@ def step (t : T) : Tok → Res
   | .showCursor on => one { t with cursorVisible := on }
   | .cursorShape n => one { t with cursorShape := n }
   | .osc8 _ url => one { t with link := url }
+  | .ris => one (T.init t.rows t.cols)
 
 /-! ### comparison -/
 
